@@ -283,4 +283,12 @@ inductive AddFinRule where
   | unknown
 deriving DecidableEq, Repr, Inhabited
 
+/-- C16: how `runtime.processEvents` reports the error of a failed watch on `runtime.watchErrors` -/
+inductive SendKind where
+  | plain        -- `runtime.watchErrors <- e.Error`: needs a free buffer slot or a receiver, ignores the context
+  | ctxAware     -- `select { case runtime.watchErrors <- e.Error: case <-runtime.runCtx.Done(): }`
+  | nonBlocking  -- `select { case runtime.watchErrors <- e.Error: default: }`
+  | unknown
+deriving DecidableEq, Repr, Inhabited
+
 end Cosi.Gen
